@@ -148,8 +148,43 @@ def parseUsize (s : Bytes) : Option Nat :=
     if v < 18446744073709551616 then some v else none
   else none
 
+def natToBytesAux : Nat → Nat → Bytes → Bytes
+  | 0, _, acc => acc
+  | fuel + 1, n, acc =>
+    let acc' := (48 + (n % 10).toUInt8) :: acc
+    if n / 10 = 0 then acc' else natToBytesAux fuel (n / 10) acc'
+
 /-- Decimal rendering of a natural number (`usize::to_string`). -/
-def natToBytes (n : Nat) : Bytes := ofString (toString n)
+def natToBytes (n : Nat) : Bytes := natToBytesAux (n + 1) n []
+
+/-- `u16::from_str`: optional `+`, digits, below 65536. -/
+def parseU16 (s : Bytes) : Option Nat :=
+  match parseUsize s with
+  | some v => if v < 65536 then some v else none
+  | none => none
+
+def hexDigitVal (b : UInt8) : Option Nat :=
+  if 48 ≤ b ∧ b ≤ 57 then some (b.toNat - 48)
+  else if 97 ≤ b ∧ b ≤ 102 then some (b.toNat - 87)
+  else if 65 ≤ b ∧ b ≤ 70 then some (b.toNat - 55)
+  else none
+
+def hexValue : Bytes → Nat → Option Nat
+  | [], acc => some acc
+  | b :: rest, acc =>
+    match hexDigitVal b with
+    | some v => hexValue rest (acc * 16 + v)
+    | none => none
+
+/-- `usize::from_str_radix(s, 16)`: optional `+`, at least one hex digit, below 2^64. -/
+def parseHexUsize (s : Bytes) : Option Nat :=
+  let ds := match s with
+    | 43 :: rest => rest
+    | _ => s
+  if ds.isEmpty then none
+  else match hexValue ds 0 with
+    | some v => if v < 18446744073709551616 then some v else none
+    | none => none
 
 /-- `s.strip_suffix("\r\n")`. -/
 def stripCrlf (s : Bytes) : Option Bytes :=
